@@ -150,3 +150,52 @@ Definition pinset (r : rep) : list (key * val) :=
 (* layer C: PutHook -> PinTracker.Track(decoded pin), DeleteHook -> PinTracker.Untrack(cid) *)
 Inductive tcall := Track (k : key) (v : val) | Untrack (k : key).
 Definition tracker_call (h : hook) : tcall := match h with HPut k v => Track k v | HDel k => Untrack k end.
+
+(* ---- one replica driven by its own writes only (the single-peer part of the statement) ---- *)
+Inductive lev :=
+| LOp (o : wop)                 (* batchWorker: batchingState.Add / Rm *)
+| LCommit (p : pres)            (* batchWorker: batchingState.Commit, with its outcome *)
+| LDirect (o : wop) (p : pres). (* LogPin / LogUnpin without batching, with its outcome *)
+
+Definition lstep (l : lrep) (e : lev) : lrep :=
+  match e with
+  | LOp o => batch_op l o
+  | LCommit p => fst (batch_commit l p)
+  | LDirect o p => fst (fst (direct_op l o p))
+  end.
+Definition lrun (es : list lev) : lrep := fold_left lstep es linit.
+
+(* last-writer-wins map the statement asks for: every operation handed to the batch, and every direct write that
+   returned nil, in submission order *)
+Definition apply_wop (m : list (key * val)) (o : wop) : list (key * val) :=
+  match o with WPin k v => aput k v m | WUnpin k => adel k m end.
+Definition spec_step (m : list (key * val)) (e : lev) : list (key * val) :=
+  match e with
+  | LOp o => apply_wop m o
+  | LCommit _ => m
+  | LDirect o p => if pres_ok p then apply_wop m o else m
+  end.
+Definition spec_map (es : list lev) : list (key * val) := fold_left spec_step es [].
+
+(* the pinset the replica holds once the pending batch (if any) is committed *)
+Definition view (l : lrep) (k : key) : option val :=
+  let dc := cur_dc l in
+  value (merge (l_st l) (mk_delta (pub_id l dc) (l_height l + 1) (fst dc) (snd dc))) k.
+
+Definition no_heads_failure (es : list lev) : bool :=
+  forallb (fun e => match e with LCommit PFailHeads | LDirect _ PFailHeads => false | _ => true end) es.
+Definition batch_mode (es : list lev) : bool := forallb (fun e => match e with LDirect _ _ => false | _ => true end) es.
+Definition direct_mode (es : list lev) : bool := forallb (fun e => match e with LDirect _ _ => true | _ => false end) es.
+
+(* every injected failure is one that can happen at that point (see pres_possible) *)
+Fixpoint outcomes_possible (l : lrep) (es : list lev) : bool :=
+  match es with
+  | [] => true
+  | e :: r =>
+      (match e with
+       | LDirect o p => pres_possible l (delta_add_op (l_st l) ([], []) o) p
+       | LCommit p => pres_possible l (cur_dc l) p
+       | LOp _ => true
+       end) && outcomes_possible (lstep l e) r
+  end.
+
